@@ -125,6 +125,9 @@ def gen_fixed(rng, den):
                     if y: cur[d][i] = y
             s += x
         return s
+    for z in den.get("zero", ()):
+        if rng.random() < 0.5:      # a zero-length sequence fixed to a non-empty string: a wrong length like any other
+            entries.append(["sequence", z, rnd(rng.choice([1, 2, 4]))])
     for _ in range(rng.choice([1, 2, 3, 5, 8])):
         r = rng.random()
         if sigs and rng.random() < 0.25: r = 0.8
